@@ -473,6 +473,58 @@ def ovfpred_rule(chk, db):
     return n
 
 
+def buflen_rule(chk, db):
+    """BUFLEN: when a formatting front end hands a local array to the kernel as (pointer, length), the length is the array's
+    extent (the extent expression itself, `sizeof` / `size` of the array). A larger length lets the kernel write behind the
+    array; a smaller one reports value_too_large although the digits fit (the exact-fit case of the property)."""
+    import re
+    n = 0
+    for f in db.funcs:
+        if f.get("body") is None or not any(f["file"].startswith(p) for p in ("_string/to_string", "_charconv/", "_cstdlib/", "_strings/")):
+            continue
+        arrays = {}
+        for st in astx.walk_stmts(f["body"]):
+            if st.get("k") == "decl":
+                for v in st["vars"]:
+                    m = re.match(r"^(?:const )?[\w:]+\s*\[(.+)\]$", (v.get("ty") or "").strip())
+                    if "other" not in v and m:
+                        arrays[v["n"]] = m.group(1).replace(" ", "")
+        if not arrays:
+            continue
+        for x in astx.all_exprs(f, into_lambdas=True):
+            if x.get("k") != "call" or len(x["a"]) < 2:
+                continue
+            for i, a in enumerate(x["a"][:-1]):
+                a0 = astx.strip_casts(a)
+                arr = None
+                if a0 is not None and a0.get("k") == "call" and astx.callee(a0)[0] in ("data", "begin") and len(a0["a"]) == 1:
+                    r0 = astx.strip_casts(a0["a"][0])
+                    arr = r0.get("n") if r0 is not None and r0.get("k") == "ref" else None
+                elif a0 is not None and a0.get("k") == "ref":
+                    arr = a0.get("n")
+                if arr not in arrays:
+                    continue
+                ln = astx.strip_casts(x["a"][i + 1])
+                if ln is None or ln.get("k") in ("call",) and astx.callee(ln)[0] in ("end", "next"):
+                    continue        # (first, last) form: not a length
+                lt = (x["a"][i + 1].get("ty") or ln.get("ty") or "")
+                if ln.get("k") not in ("ref", "bin", "int", "call", "sizeof", "cast"):
+                    continue
+                if ln.get("k") == "ref" and ln.get("d") in ("local", "param") and ln.get("n") not in (arrays[arr],):
+                    continue        # a run-time length (the caller's count): not the array's extent
+                n += 1
+                label = "%s :: `%s`" % (astx.sig(f), astx.show(x, 60))
+                chk.instance("BUFLEN")
+                txt = astx.show(ln, 60).replace(" ", "").strip("()")
+                ok = txt == arrays[arr] or txt in ("sizeof(%s)" % arr, "etl::size(%s)" % arr, "size(%s)" % arr)
+                chk.obligation("BUFLEN", label, ok)
+                if not ok:
+                    chk.violation("BUFLEN", label, "length-not-extent", "%s: the array `%s[%s]` is handed over with the length `%s`" % (
+                        astx.loc(f, x), arr, arrays[arr], astx.show(ln, 40)), {"where": astx.loc(f)})
+                break
+    return n
+
+
 def sign_rule(chk, db):
     """SIGN: a formatting kernel that can emit '-' emits it on every path on which the value may be negative (std::to_chars
     writes the sign for every base). Facts come from the tests on the path: `v < 0` false or an unsigned type excuse it."""
@@ -627,7 +679,7 @@ def _split_targs(s):
     return out
 
 
-META_EXTRA = "NEG (no negation of a possibly-minimum signed value); SIGN ('-' on every path that may format a negative value); CASTSIGN (no cast of the caller's value to a fixed signed type); OVFCHK (accumulation only after an unconditional overflow test); OVFCONST (exact thresholds limit / base, |limit % base|); OVFPRED (the overflow predicate evaluated over the six orderings of (value, digit) against the two thresholds); PARSE (front ends parse in the type they deliver, with the standard's white-space option); PARAM."
+META_EXTRA = "NEG (no negation of a possibly-minimum signed value); SIGN ('-' on every path that may format a negative value); CASTSIGN (no cast of the caller's value to a fixed signed type); OVFCHK (accumulation only after an unconditional overflow test); OVFCONST (exact thresholds limit / base, |limit % base|); OVFPRED (the overflow predicate evaluated over the six orderings of (value, digit) against the two thresholds); BUFLEN (a local array is handed to the kernel with its own extent as length); PARSE (front ends parse in the type they deliver, with the standard's white-space option); PARAM."
 META = (META[0] + " " + META_EXTRA, META[1])
 
 
@@ -645,6 +697,8 @@ def run(chk, tier):
     ovfchk_rule(chk, db)
     ovfconst_rule(chk, db)
     ovfpred_rule(chk, db)
+    if buflen_rule(chk, D.load("checks")) < 1:
+        chk.unknown_instance("BUFLEN", "etl::detail::to_string", "no local array handed to a formatting kernel found")
     parse_rule(chk, D.load("checks"))
     chk.assumptions += [
         "digits produced, values parsed, round trips and overflow detection at the type's limits are run-time values and are "
